@@ -465,7 +465,7 @@ impl Prop for C05Prop {
         vec![Section {
             name: "histories",
             kind: SectionKind::Random {
-                cases: tier.pick(500, 4_000),
+                cases: tier.pick(500, 2_500),
                 maxlen: 6000,
             },
             exhaustive: false,
@@ -473,7 +473,7 @@ impl Prop for C05Prop {
         }, Section {
             name: "includes_and_threads",
             kind: SectionKind::Random {
-                cases: tier.pick(150, 1_500),
+                cases: tier.pick(150, 1_000),
                 maxlen: 60,
             },
             exhaustive: false,
@@ -481,7 +481,7 @@ impl Prop for C05Prop {
         }, Section {
             name: "let_functions",
             kind: SectionKind::Random {
-                cases: tier.pick(120, 1_500),
+                cases: tier.pick(120, 1_000),
                 maxlen: 200,
             },
             exhaustive: false,
